@@ -31,17 +31,20 @@ RULE = ('random typed expression trees (depth <= 6; 10 integer types x casts x 4
         '`T f(T0 a0, T1 a1[, T2 a2]) { return e; }` for x86_64 (LP64), arm (ILP32), msp430 (16-bit int), run on '
         'boundary argument vectors; distinct non-trivial = distinct (target, source, argument vector) triples whose C '
         'value is defined (spec /= None) and that were executed on the real IR; plus generated statement programs')
-EXPLANATION = ('PARTIAL (level other). Proved in Coq, unbounded over expressions, stores and data models: (1) the type '
-               'CSemantics assigns = the C11 type (c01_expr_typing) and (2) the IR trees CCodeGenerator builds evaluate '
-               '(with Spec/IRSem arithmetic) to the C value and final store (c01_expr_value), for integer expressions over '
-               'literals, parameters, casts, - ~ ! +, + - * / % << >> & | ^, comparisons, && || ?:, comma, = and op=, '
-               'wherever ppci typing coincides with C typing (agrees) and the IR type map is faithful; per-operator '
-               'lemmas, cast and comparison exactness, short-circuit; refuted theorems with witnesses for the typing '
-               'defects per data model, the compound-assignment defect and the unsigned-int-as-i16 map. NOT proved: the '
-               'tree -> CFG linearisation (emit_fn is only compared with the real IR and executed), parser, declarations, '
-               'arrays, structs, calls, statements (differential execution against gcc only); pointer +/- integer is proved only as '
-               'the gen_binop instruction sequence (c01_ptr_arith_exact), pointer comparison / difference / ++ / [] are validated '
-               'by the systematic pointer family (5 element types x 10 index types x 12 forms) only.')
+EXPLANATION = ('PARTIAL (level other). Proved in Coq, unbounded over expressions / statements, stores, fuel and data models: '
+               '(1) the type CSemantics assigns = the C11 type (c01_expr_typing); (2) the IR trees CCodeGenerator builds evaluate '
+               '(Spec/IRSem arithmetic) to the C value and final store (c01_expr_value) for integer expressions over literals, '
+               'locals, casts, - ~ ! +, + - * / % << >> & | ^, comparisons, && || ?:, comma, = and op=, wherever ppci typing '
+               'coincides with C typing (agrees: everywhere for the current typing code except op=, and without exception with '
+               'fixes/C01-compound-assign.diff: c01_expr_value_unconditional) and the IR type map is faithful (x86_64, arm; not '
+               'msp430); (3) c01_stmt_exact: the statement skeleton gen_stmt builds for compound / expression statements / '
+               'initialised declarations / if / if-else / while / do-while / for / break / continue / return ends with the same '
+               'outcome and store as the C big-step semantics Spec/CStmtSpec.v; (4) c01_ptr_arith_exact for the scaling of '
+               'pointer +/- integer; per-operator, cast, comparison and short-circuit theorems; refuted theorems with witnesses '
+               'for the historical typing defects, op= and the unsigned-int-as-i16 map. NOT proved: the linearisation of the '
+               'trees / skeletons into basic blocks (emit_fn, emit_fn_stmt: compared structurally with the real c_to_ir output and '
+               'executed on every run), parser, declarations without initialiser, switch, goto, arrays, structs, calls, pointer '
+               'comparison / difference / indexing (differential execution against gcc / an independent evaluator only).')
 TRUSTED = ['hand models Model/CGenExpr.v (elab, low, emit_fn) — compared per run with the real c_to_ir output (structure) '
            'and with the real IR executed by tools/irsem_py.py (values)',
            'Spec/IRSem.v arithmetic (eval_binop/eval_unop/eval_cast/eval_const/eval_cond) as the meaning of IR; the tree '
@@ -248,6 +251,8 @@ def classify(sv, dm, te, e):
         return None if ca(e[2], e[3]) else 'common-type'
     if k == 'asgop':
         tx, tb = te[e[2]], xtype(dm, te, e[3])
+        if sv == 'c11a':
+            return None
         if e[1] in ('<<', '>>'):
             ok = S.promote(dm, tx) == tx
         else:
@@ -378,11 +383,14 @@ def coq_zs(vs):
 
 
 # ------------------------------------------------------------------ generator
-def gen_x(rng, dm, te, depth, small=False, effects=True):
+def gen_x(rng, dm, te, depth, small=False, effects=True, rd=None, wr=None):
+    rd = list(range(len(te))) if rd is None else rd
+    wr = list(range(len(te))) if wr is None else wr
+    effects = effects and bool(wr)
     r = rng.random()
     if depth <= 0 or r < 0.16:
-        if rng.random() < 0.55:
-            return ('var', rng.randrange(len(te)))
+        if rd and rng.random() < 0.55:
+            return ('var', rng.choice(rd))
         t = rng.choice(S.TYPES)
         if small or rng.random() < 0.4:
             v = rng.choice([0, 1, 2, 3, 5, 7, -1, -2, -7, 8, 31, 100])
@@ -392,7 +400,7 @@ def gen_x(rng, dm, te, depth, small=False, effects=True):
         else:
             v = rng.randint(*S.limits(dm, t))
         return ('lit', t, v)
-    sub = lambda: gen_x(rng, dm, te, depth - 1, small, effects)   # noqa: E731
+    sub = lambda: gen_x(rng, dm, te, depth - 1, small, effects, rd, wr)   # noqa: E731
     if r < 0.27:
         return ('cast', rng.choice(S.TYPES), sub())
     if r < 0.38:
@@ -402,9 +410,9 @@ def gen_x(rng, dm, te, depth, small=False, effects=True):
     if effects and r < 0.49:
         return ('comma', sub(), sub())
     if effects and r < 0.53:
-        return ('asg', rng.randrange(len(te)), sub())
+        return ('asg', rng.choice(wr), sub())
     if effects and r < 0.58:
-        return ('asgop', rng.choice(COMPOUND), rng.randrange(len(te)), sub())
+        return ('asgop', rng.choice(COMPOUND), rng.choice(wr), sub())
     op = rng.choice(list(S.BINOPS))
     a = sub()
     if op in ('<<', '>>') and rng.random() < 0.7:
@@ -515,12 +523,24 @@ def sema_variant():
     p = sem16.promote(lit).typ
     a = 'c11' if t.type_id == 'unsigned long' else 'orig'
     b = 'c11' if p.type_id == 'unsigned int' else 'orig'
-    _SV['v'] = a if a == b else 'mixed'
+    v = a if a == b else 'mixed'
+    # compound assignment: is the rhs of `int a; unsigned b; a /= b` typed unsigned int (fixes/C01-compound-assign.diff)?
+    try:
+        from ppci.lang.c.builder import _parse
+        unit = _parse(io.StringIO('int f(int a, unsigned b) { a /= b; return a; }'), 'x.c',
+                      CContext(COptions(), get_arch('arm').info))
+        rhs = unit.declarations[0].body.statements[0].expression.b
+        if rhs.typ.type_id == 'unsigned int':
+            v = 'c11a' if v == 'c11' else 'mixed'
+    except Exception:   # noqa: BLE001
+        v = 'mixed'
+    _SV['v'] = v
     return _SV['v']
 
 
 def coq_sv(march):
-    return 'sem_orig' if sema_variant() == 'orig' else '(sem_c11 %s)' % target(march)['cctx']
+    return {'orig': 'sem_orig', 'c11': '(sem_c11 %s)', 'c11a': '(sem_c11a %s)'}.get(sema_variant(), 'sem_orig').replace(
+        '%s', target(march)['cctx'])
 
 
 def compile_c(march, src):
@@ -966,6 +986,428 @@ def statements(ctx, n):
     return st
 
 
+# ------------------------------------------------------------------ (e) structured statements (proved fragment)
+# trees: ('skip',) ('expr', e) ('decl', n, e) ('seq', a, b) ('if1', c, a) ('if', c, a, b) ('while', c, body)
+#        ('do', body, c) ('for', init, c, post, body) ('break',) ('continue',) ('return', e)
+class _Brk(Exception):
+    pass
+
+
+def sexec(dm, te, rt, fuel, st, s):
+    """independent reading of Spec/CStmtSpec.v: (outcome, store) | None; outcome 'n' 'b' 'c' ('r', v)"""
+    box = [fuel]
+
+    def ev(st, e):
+        return ceval(dm, te, st, e)
+
+    def go(st, s):
+        box[0] -= 1
+        if box[0] < 0:
+            raise _Brk()
+        k = s[0]
+        if k == 'skip':
+            return ('n', st)
+        if k == 'expr':
+            r = ev(st, s[1])
+            return None if r is None else ('n', r[1])
+        if k == 'decl':
+            r = ev(st, s[2])
+            if r is None:
+                return None
+            s2 = list(r[1])
+            s2[s[1]] = S.convert(dm, te[s[1]], r[0])
+            return ('n', tuple(s2))
+        if k == 'seq':
+            r = go(st, s[1])
+            if r is None or r[0] != 'n':
+                return r
+            return go(r[1], s[2])
+        if k in ('if1', 'if'):
+            r = ev(st, s[1])
+            if r is None:
+                return None
+            if r[0] != 0:
+                return go(r[1], s[2])
+            return go(r[1], s[3]) if k == 'if' else ('n', r[1])
+        if k == 'while':
+            while True:
+                r = ev(st, s[1])
+                if r is None:
+                    return None
+                if r[0] == 0:
+                    return ('n', r[1])
+                b = go(r[1], s[2])
+                if b is None:
+                    return None
+                if b[0] == 'b':
+                    return ('n', b[1])
+                if isinstance(b[0], tuple):
+                    return b
+                st = b[1]
+                box[0] -= 1
+                if box[0] < 0:
+                    raise _Brk()
+        if k == 'do':
+            while True:
+                b = go(st, s[1])
+                if b is None:
+                    return None
+                if b[0] == 'b':
+                    return ('n', b[1])
+                if isinstance(b[0], tuple):
+                    return b
+                r = ev(b[1], s[2])
+                if r is None:
+                    return None
+                if r[0] == 0:
+                    return ('n', r[1])
+                st = r[1]
+                box[0] -= 1
+                if box[0] < 0:
+                    raise _Brk()
+        if k == 'for':
+            r = go(st, s[1])
+            if r is None:
+                return None
+            st = r[1]
+            while True:
+                r = ev(st, s[2])
+                if r is None:
+                    return None
+                if r[0] == 0:
+                    return ('n', r[1])
+                b = go(r[1], s[4])
+                if b is None:
+                    return None
+                if b[0] == 'b':
+                    return ('n', b[1])
+                if isinstance(b[0], tuple):
+                    return b
+                r = ev(b[1], s[3])
+                if r is None:
+                    return None
+                st = r[1]
+                box[0] -= 1
+                if box[0] < 0:
+                    raise _Brk()
+        if k == 'break':
+            return ('b', st)
+        if k == 'continue':
+            return ('c', st)
+        if k == 'return':
+            r = ev(st, s[1])
+            return None if r is None else (('r', S.convert(dm, rt, r[0])), r[1])
+        raise ValueError(k)
+    try:
+        return go(tuple(st), s)
+    except _Brk:
+        return None
+
+
+def srun_fn(dm, te, np, rt, args, body, fuel=3000):
+    r = sexec(dm, te, rt, fuel, tuple(args) + (0,) * (len(te) - np), body)
+    if r is None or not isinstance(r[0], tuple):
+        return None
+    return r[0][1]
+
+
+def smap(f, s):
+    """apply f to every expression of a statement tree"""
+    k = s[0]
+    if k in ('skip', 'break', 'continue'):
+        return s
+    if k in ('expr', 'return'):
+        return (k, f(s[1]))
+    if k == 'decl':
+        return (k, s[1], f(s[2]))
+    if k == 'seq':
+        return (k, smap(f, s[1]), smap(f, s[2]))
+    if k == 'if1':
+        return (k, f(s[1]), smap(f, s[2]))
+    if k == 'if':
+        return (k, f(s[1]), smap(f, s[2]), smap(f, s[3]))
+    if k == 'while':
+        return (k, f(s[1]), smap(f, s[2]))
+    if k == 'do':
+        return (k, smap(f, s[1]), f(s[2]))
+    if k == 'for':
+        return (k, smap(f, s[1]), f(s[2]), f(s[3]), smap(f, s[4]))
+    raise ValueError(k)
+
+
+def sexprs(s):
+    out = []
+    smap(lambda e: (out.append(e), e)[1], s)
+    return out
+
+
+def render_stmt(dm, te, s, np, ind='  '):
+    k = s[0]
+    nm = lambda n: 'a%d' % n    # noqa: E731
+    if k == 'skip':
+        return ind + ';\n'
+    if k == 'expr':
+        return ind + render(dm, s[1]) + ';\n'
+    if k == 'decl':
+        return ind + '%s %s = %s;\n' % (S.C_T[te[s[1]]], nm(s[1]), render(dm, s[2]))
+    if k == 'seq':
+        return render_stmt(dm, te, s[1], np, ind) + render_stmt(dm, te, s[2], np, ind)
+    blk = lambda b: '{\n' + render_stmt(dm, te, b, np, ind + '  ') + ind + '}'   # noqa: E731
+    if k == 'if1':
+        return ind + 'if (%s) %s\n' % (render(dm, s[1]), blk(s[2]))
+    if k == 'if':
+        return ind + 'if (%s) %s else %s\n' % (render(dm, s[1]), blk(s[2]), blk(s[3]))
+    if k == 'while':
+        return ind + 'while (%s) %s\n' % (render(dm, s[1]), blk(s[2]))
+    if k == 'do':
+        return ind + 'do %s while (%s);\n' % (blk(s[1]), render(dm, s[2]))
+    if k == 'for':
+        init = render_stmt(dm, te, s[1], np, '').strip()
+        return ind + 'for (%s %s; %s) %s\n' % (init, render(dm, s[2]), render(dm, s[3]), blk(s[4]))
+    if k in ('break', 'continue'):
+        return ind + k + ';\n'
+    if k == 'return':
+        return ind + 'return %s;\n' % render(dm, s[1])
+    raise ValueError(k)
+
+
+def c_function_stmt(dm, te, np, rt, body, name='f'):
+    return '%s %s(%s) {\n%s}' % (S.C_T[rt], name, ', '.join('%s a%d' % (S.C_T[t], i) for i, t in enumerate(te[:np])),
+                                 render_stmt(dm, te, body, np))
+
+
+def coq_stmt(s):
+    k = s[0]
+    if k == 'skip':
+        return 'SSkip'
+    if k == 'expr':
+        return '(SExpr %s)' % coq_cx(s[1])
+    if k == 'decl':
+        return '(SDecl %d %s)' % (s[1], coq_cx(s[2]))
+    if k == 'seq':
+        return '(SSeq %s %s)' % (coq_stmt(s[1]), coq_stmt(s[2]))
+    if k == 'if1':
+        return '(SIf1 %s %s)' % (coq_cx(s[1]), coq_stmt(s[2]))
+    if k == 'if':
+        return '(SIf %s %s %s)' % (coq_cx(s[1]), coq_stmt(s[2]), coq_stmt(s[3]))
+    if k == 'while':
+        return '(SWhile %s %s)' % (coq_cx(s[1]), coq_stmt(s[2]))
+    if k == 'do':
+        return '(SDoWhile %s %s)' % (coq_stmt(s[1]), coq_cx(s[2]))
+    if k == 'for':
+        return '(SFor %s %s %s %s)' % (coq_stmt(s[1]), coq_cx(s[2]), coq_cx(s[3]), coq_stmt(s[4]))
+    return {'break': 'SBreak', 'continue': 'SContinue'}.get(k) or '(SReturn %s)' % coq_cx(s[1])
+
+
+class StmtGen:
+    """statement trees of the proved fragment; loops run on dedicated counters that the bodies never assign"""
+
+    def __init__(self, rng, dm, np):
+        self.rng, self.dm = rng, dm
+        self.te = [rng.choice(S.TYPES) for _ in range(np)]
+        self.np = np
+        self.counters = set()
+
+    def new_local(self, t=None):
+        self.te.append(t or self.rng.choice(S.TYPES))
+        return len(self.te) - 1
+
+    def ex(self, avail, depth=2, effects=True):
+        wr = [v for v in avail if v not in self.counters]
+        for _ in range(20):
+            e = gen_x(self.rng, self.dm, self.te, self.rng.randint(0, depth), small=True, effects=effects,
+                      rd=list(avail), wr=wr)
+            if seq_ok(e):
+                return e
+        return ('lit', 'int', 1)
+
+    def seq(self, avail, depth, n, inloop):
+        avail = list(avail)
+        avail0 = list(avail)
+        out = []
+        for _ in range(n):
+            st, avail = self.stmt(avail, depth, inloop)
+            out.append(st)
+        if inloop and self.rng.random() < 0.45:     # a guarded (sometimes bare) jump out of / to the end of the body
+            kind = 'continue' if (inloop is True and self.rng.random() < 0.5) else 'break'
+            j = (kind,) if self.rng.random() < 0.15 else ('if1', self.ex(avail0, 1), (kind,))
+            out.insert(self.rng.randint(0, len(out)), j)
+        r = out[-1]
+        for st in reversed(out[:-1]):
+            r = ('seq', st, r)
+        return r
+
+    def stmt(self, avail, depth, inloop):
+        rng = self.rng
+        r = rng.random()
+        lit = lambda v: ('lit', 'int', v)    # noqa: E731
+        if depth <= 0 or r < 0.22:
+            return ('expr', self.ex(avail)), avail
+        if r < 0.36:
+            n = self.new_local()
+            return ('decl', n, self.ex(avail)), avail + [n]
+        if r < 0.44:
+            return ('if1', self.ex(avail), self.seq(avail, depth - 1, rng.randint(1, 2), inloop)), avail
+        if r < 0.54:
+            return ('if', self.ex(avail), self.seq(avail, depth - 1, rng.randint(1, 2), inloop),
+                    self.seq(avail, depth - 1, rng.randint(1, 2), inloop)), avail
+        if r < 0.64:    # for (int i = 0; i < K [&& c]; i = i + 1 | i += 1)
+            i = self.new_local(rng.choice(['int', 'int', 'uint', 'long', 'short', 'uchar']))
+            self.counters.add(i)
+            cond = ('bin', '<', ('var', i), lit(rng.randint(1, 4)))
+            if rng.random() < 0.3:
+                cond = ('bin', '&&', cond, self.ex(avail + [i], 1, effects=False))
+            post = rng.choice([('asgop', '+', i, lit(1)), ('asg', i, ('bin', '+', ('var', i), lit(1)))])
+            body = self.seq(avail + [i], depth - 1, rng.randint(1, 3), True)
+            return ('for', ('decl', i, lit(0)), cond, post, body), avail
+        if r < 0.72:    # int k = K; while (k > 0) { body; k = k - 1; }   (no continue inside: handled by inloop flag)
+            k = self.new_local('int')
+            self.counters.add(k)
+            body = self.seq(avail + [k], depth - 1, rng.randint(1, 2), 'nocontinue')
+            body = ('seq', body, ('expr', ('asg', k, ('bin', '-', ('var', k), lit(1)))))
+            return ('seq', ('decl', k, lit(rng.randint(1, 3))), ('while', ('bin', '>', ('var', k), lit(0)), body)), avail + [k]
+        if r < 0.80:    # int d = 0; do { d = d + 1; body } while (d < K);
+            d = self.new_local('int')
+            self.counters.add(d)
+            body = self.seq(avail + [d], depth - 1, rng.randint(1, 2), True)
+            body = ('seq', ('expr', ('asg', d, ('bin', '+', ('var', d), lit(1)))), body)
+            return ('seq', ('decl', d, lit(0)), ('do', body, ('bin', '<', ('var', d), lit(rng.randint(1, 3))))), avail + [d]
+        if r < 0.86 and inloop:
+            return (('if1', self.ex(avail, 1), ('break',)) if rng.random() < 0.7 else ('break',)), avail
+        if r < 0.92 and inloop is True:
+            return (('if1', self.ex(avail, 1), ('continue',)) if rng.random() < 0.7 else ('continue',)), avail
+        if r < 0.96:
+            return ('if1', self.ex(avail, 1), ('return', self.ex(avail))), avail
+        return ('expr', self.ex(avail)), avail
+
+    def function(self, depth=3):
+        avail = list(range(self.np))
+        body = self.seq(avail, depth, self.rng.randint(2, 5), False)
+        # locals declared in nested blocks are out of scope here: return over parameters and top-level locals
+        top = list(range(self.np))
+        s = body
+        while True:
+            first = s[1] if s[0] == 'seq' else s
+            for d in ([first] if first[0] == 'decl' else ([first[1]] if first[0] == 'seq' and first[1][0] == 'decl' else [])):
+                top.append(d[1])
+            if s[0] != 'seq':
+                break
+            s = s[2]
+        return ('seq', body, ('return', self.ex(top, 2, effects=False)))
+
+
+def gen_stmt_case(rng, march):
+    """(march, te, np, rt, body, [(args, value)]) with >= 1 defined terminating vector, or None"""
+    dm = target(march)['dm']
+    for _ in range(30):
+        g = StmtGen(rng, dm, rng.choice([1, 2, 2]))
+        body = g.function(rng.choice([1, 2, 2, 3]))
+        te, np_ = g.te, g.np
+        rt = rng.choice(S.TYPES)
+        d = smap(lambda e: desugar(dm, e), body)
+        vecs = []
+        for a in arg_vectors(rng, dm, te[:np_], 8):
+            v = srun_fn(dm, te, np_, rt, a, d)
+            if v is not None:
+                vecs.append((a, v))
+            if len(vecs) >= 3:
+                break
+        if vecs:
+            return (march, te, np_, rt, body, vecs)
+    return None
+
+
+def stmt_fragment_class(march, te, rt, d):
+    for e in sexprs(d):
+        c = fragment_class(march, te, rt, e)
+        if c:
+            return c
+    return None
+
+
+def statements_model(ctx, n, n_model):
+    """(a) Model/CGenStmt.emit_fn_stmt == real CFG; skeleton run == irsem_py on the real IR; Coq spec == Python spec;
+    (b) search: real IR vs the Python reading of Spec/CStmtSpec.v"""
+    st = {'generated': 0, 'structure': 0, 'values': 0, 'spec_cross': 0, 'search_compared': 0, 'violations': 0,
+          'known_class_hits': 0, 'compile_error': 0, 'kinds': {}}
+    cc, recs = [], []
+    seen = set()
+    for i in range(n):
+        c = gen_stmt_case(ctx.rng, TARGETS[i % len(TARGETS)])
+        if not c:
+            continue
+        march, te, np_, rt, body, vecs = c
+        tg = target(march)
+        dm = tg['dm']
+        st['generated'] += 1
+        d = smap(lambda e: desugar(dm, e), body)
+        for w in re.findall(r"'(if1|if|while|do|for|break|continue|return|decl)'", repr(body)):
+            st['kinds'][w] = st['kinds'].get(w, 0) + 1
+        src = c_function_stmt(dm, te, np_, rt, body)
+        mod, err = compile_c(march, src)
+        if mod is None:
+            st['compile_error'] += 1
+            ctx.failed_stages.append(('statements_model', 'c_to_ir failed on a generated function: %s: %s' % (src, err)))
+            continue
+        cls = stmt_fragment_class(march, te, rt, d)
+        if i < n_model:
+            cq, sv = coq_stmt(d), coq_sv(march)
+            pn = '[%s]' % '; '.join('"a%d"%%string' % j for j in range(np_))
+            try:
+                cf = canon_func(mod)
+            except Exception as ex:   # noqa: BLE001
+                cf = None
+                ctx.log('irimport failed', src, ex)
+            if cf is not None:
+                cc.append(('c_fn_stmt %s %s "f" %s %s %s %s' % (sv, tg['cgen'], pn, coq_tys(te), S.COQ_T[rt], cq), cf))
+                recs.append(('structure', march, src))
+                st['structure'] += 1
+            for (args, _v) in vecs[:2]:
+                real = run_ir(march, mod, args, fuel=3000)
+                cc.append(('stmt_result %s %s %s %d %s 400 %s %s' % (sv, tg['cgen'], coq_tys(te), np_, S.COQ_T[rt], cq,
+                                                                    coq_zs(args)), real))
+                recs.append(('value', march, src, args))
+                st['values'] += 1
+                cc.append(('run_fn %s %s %d %s 400 %s %s' % (S.coq_dm(dm), coq_tys(te), np_, S.COQ_T[rt], coq_zs(args), cq),
+                           srun_fn(dm, te, np_, rt, args, d, fuel=10 ** 6)))
+                recs.append(('spec', march, src, args))
+                st['spec_cross'] += 1
+        for (args, v) in vecs:
+            r = run_ir(march, mod, args, fuel=3000)
+            st['search_compared'] += 1
+            ctx.cov['evaluations'] += 1
+            if isinstance(r, OkV) and S.convert(dm, rt, r.v) == v:
+                seen.add((march, src, args))
+                continue
+            rec = {'fn': 'c_to_ir statements', 'dm': DMNAME[march], 'target': march, 'source': src, 'args': list(args),
+                   'expected': v, 'actual': r.v if isinstance(r, OkV) else repr(r),
+                   'how_to_replay': 'm = ppci.api.c_to_ir(io.StringIO(source), "%s"); tools/irsem_py.run_main(m, "f", args, '
+                                    '3000, cfg)' % march}
+            if cls is None:
+                st['violations'] += 1
+                rec['key'] = 'stmt/in-fragment'
+                rec['in_proved_fragment'] = True
+            else:
+                st['known_class_hits'] += 1
+                rec['fn'] = 'c_to_ir expression'
+                rec['class'] = cls
+                rec['key'] = 'stmt/%s/%s' % (DMNAME[march], cls)
+                rec['in_proved_fragment'] = False
+            ctx.violation(rec)
+            break
+    if cc:
+        bad = ctx.run_cases('cstmt', IMPORTS + ['Spec.CStmtSpec', 'Model.CGenStmt'], cc, shard=120)
+        if bad:
+            for i in bad[:5]:
+                ctx.log('statement model/implementation disagree:', recs[i][:3])
+            kinds = sorted({recs[i][0] for i in bad})
+            ctx.failed_stages.append(('statements_model', 'model disagrees with the front-end on %d cases (%s), first: %r'
+                                      % (len(bad), ','.join(kinds), recs[bad[0]])))
+    ctx.cov['distinct_nontrivial'] += len(seen)
+    ctx.cov['stages']['statements_model'] = st
+    return st
+
+
 # ------------------------------------------------------------------ (d) pointer arithmetic family (validation)
 # `ET arr[80]`, base pointer p = &arr[40]; every form is a function `long long fK(IT n)`; the expected value is
 # computed by the independent evaluator below (element index arithmetic only) and, on LP64, also by gcc -O0.
@@ -1179,7 +1621,7 @@ def regen(ctx):
              'Open Scope Z_scope.']
     for m in TARGETS:
         lines.append('Definition tg_%s : cgen := %s.' % (m, target(m)['cgen']))
-    lines.append('Definition sema_is_c11 : bool := %s.' % ('true' if sema_variant() == 'c11' else 'false'))
+    lines.append('Definition sema_is_c11 : bool := %s.' % ('true' if sema_variant() in ('c11', 'c11a') else 'false'))
     ctx.write_gen('c01_targets', '\n'.join(lines) + '\n')
     ctx.cov['stages']['targets'] = {m: {'cgen': target(m)['cgen'], 'ir_types': target(m)['irt']} for m in TARGETS}
     ctx.cov['stages']['sema_variant'] = sema_variant()
@@ -1197,7 +1639,7 @@ def run(ctx):
         wall[name] = round(time.time() - t0, 1)
         t0 = time.time()
     regen(ctx)
-    ok, _ = ctx.build(['Proofs/C01_expr.vo', 'Proofs/C01_refuted.vo', 'Proofs/C01_ptr.vo', 'Model/CGenExprRun.vo'])
+    ok, _ = ctx.build(['Proofs/C01_expr.vo', 'Proofs/C01_refuted.vo', 'Proofs/C01_ptr.vo', 'Proofs/C01_stmt.vo', 'Model/CGenExprRun.vo'])
     if ok:
         ctx.check_props('Props/C01.v')
     lap('coq')
@@ -1227,6 +1669,9 @@ def run(ctx):
     lap('spec_vs_gcc')
     search(ctx, cases, n_extra=3000 if deep else 600)
     lap('search')
+    if ok:
+        statements_model(ctx, 900 if deep else 45, 300 if deep else 45)
+    lap('statements_model')
     statements(ctx, 400 if deep else 30)
     lap('statements')
     if ok:
@@ -1242,23 +1687,26 @@ def run(ctx):
 
 
 MANIFEST = {
-    'text': 'partial: unbounded Coq theorems that, for integer expressions over literals, parameters/locals, casts, unary '
-            '- ~ ! +, binary + - * / % << >> & | ^, comparisons, && || ?:, comma, = and op=, (1) the type CSemantics '
-            'assigns is the C11 type and (2) the IR that CCodeGenerator builds (gen_expr/gen_binop/gen_cast/gen_condition, '
-            'modelled as trees over Spec/IRSem arithmetic) computes exactly the C value and final values of the locals '
-            'whenever the C value is defined, for every data model whose IR type map is faithful (x86_64, arm) and every '
-            'expression on which ppci typing coincides with C typing; per-operator, cast-exactness, comparison-signedness '
-            'and short-circuit theorems. Refuted with replayed witnesses (known findings): get_common_type/promote give a '
-            'non-C type (uint x long on ILP32, ulong x llong on LP64, unsigned short on 16-bit int), op= is computed in the '
-            'type of the left operand, unsigned int is lowered to signed i16 on 16-bit targets. Statements, arrays, '
-            'structs, calls and globals are only validated by differential execution against gcc -O0. Pointer arithmetic: the '
-            'scaling sequence of p + n / p - n is proved exact (c01_ptr_arith_exact, unbounded over element size, index type and '
-            'value) for the code with fixes/C01-pointer-index-scaling.diff and refuted for the code before it (index scaled in '
-            'the index type); p[n], p += n, ptr - ptr, pointer comparisons, ++/-- are validated by a systematic family '
-            '(every element type x every index type x 12 forms, independent evaluator cross-checked with gcc).',
-    'note': 'trusted: Coq kernel; hand models of CSemantics typing and CCodeGenerator lowering (compared per run with the real '
-            'IR structurally and by execution); Spec/IRSem arithmetic as IR meaning, the tree runner for the CFG fragments '
-            '(linearisation not proved, only compared/executed); the reading of C11 (cross-checked with gcc); irsem_py, '
-            'irimport, gcc as oracles. Not modelled: parser, declarations, pointers, structs, calls, statements, floats.',
-    'technique': 'Coq proof on a hand model + structural/differential correspondence + gcc differential for statements',
+    'text': 'partial: unbounded Coq theorems for the integer fragment of the C front-end. Expressions (literals, locals, casts, '
+            'unary - ~ ! +, binary + - * / % << >> & | ^, comparisons, && || ?:, comma, = and op=): the type CSemantics assigns is '
+            'the C11 type and the IR trees CCodeGenerator builds (gen_expr/gen_binop/gen_cast/gen_condition, run with Spec/IRSem '
+            'arithmetic) compute exactly the C value and the final values of the locals whenever the C value is defined, for '
+            'every data model whose IR type map is faithful (x86_64, arm) and every expression on which ppci typing is C typing '
+            '(all of them for the current code except `x op= e`; all of them with fixes/C01-compound-assign.diff). Statements: '
+            'the control skeleton gen_stmt builds for compound and expression statements, initialised declarations, if, if-else, '
+            'while, do-while, for, break, continue and return ends with the same outcome (normal/break/continue/return v) and '
+            'store as a fuelled C big-step semantics, for all statements, stores and fuel (c01_stmt_exact). Pointer +/- integer: '
+            'the scaling sequence is exact for every element size, index type and value (c01_ptr_arith_exact). Refuted with '
+            'replayed witnesses: the historical common-type / promotion defects (fixed c83990b), the index scaled in the index '
+            'type (fixed b4ad9a5), op= computed in the type of x (fix proposed), unsigned int lowered to signed i16 on 16-bit '
+            'targets (known finding). switch, goto, arrays, structs, calls, globals, pointer comparison/difference/indexing are '
+            'validated by differential execution (gcc -O0 with ubsan, independent evaluators) only.',
+    'note': 'trusted: Coq kernel; hand models of CSemantics typing and CCodeGenerator lowering (Model/CGenExpr.v, CGenStmt.v, '
+            'CGenPtr.v), whose block-level linearisation (emit_fn / emit_fn_stmt: block creation order, jump targets, phis, '
+            'delete_unreachable, ids) is NOT part of the theorems but is compared per run with the real c_to_ir output '
+            'structurally (hundreds of generated functions) and by executing the real IR with tools/irsem_py.py; Spec/IRSem '
+            'arithmetic as IR meaning; the reading of C11 (Spec/CIntSpec, CExprSpec, CStmtSpec; cross-checked with a Python '
+            'reading and gcc); irsem_py, irimport, gcc as oracles. Not modelled: parser, switch/goto, floats, structs, calls.',
+    'technique': 'Coq proof on hand models (expressions, statement skeletons, pointer scaling) + structural/differential '
+                 'correspondence with the real IR + gcc differential for the rest',
 }
